@@ -61,6 +61,42 @@ pub fn judge_backup(run: &Run, w: &World, rep: &StepReport, replay: &Value) -> b
     }
 }
 
+/// Every surviving completed version restores to its own snapshot, by id and (the newest) via
+/// LatestClosed. Returns (restores done, number of complete versions), None after a violation.
+fn check_versions(run: &Run, w: &World, when: &str, replay: &Value) -> Option<(u64, usize)> {
+        // every surviving completed version restores to its own snapshot
+        let complete = w.complete_bands();
+        let mut restores = 0u64;
+        for b in &complete {
+            let Some(expected) = w.sources.get(b) else {
+                run.inconclusive(format!("{when}: complete band {b} unknown to the model"));
+                return None;
+            };
+            restores += 1;
+            if let Err(m) = restore_and_compare(&w.arch, Some(*b), expected, &w.sc, &CmpOpts::default()) {
+                run.violation(
+                    format!("by-id:{}", m.class),
+                    format!("{when} version b{b:04}: {}", m.detail),
+                    replay.clone(),
+                );
+                return None;
+            }
+        }
+        if let Some(latest) = complete.iter().max() {
+            restores += 1;
+            if let Err(m) = restore_and_compare(&w.arch, None, &w.sources[latest], &w.sc, &CmpOpts::default()) {
+                let headless = !headless_bands(&w.raw(false)).is_empty();
+                run.violation(
+                    format!("latest-closed{}:{}", if headless { "-with-headless-band-dir" } else { "" }, m.class),
+                    format!("{when} latest complete is b{latest:04}: {}", m.detail),
+                    replay.clone(),
+                );
+                return None;
+            }
+        }
+            Some((restores, complete.len()))
+}
+
 fn one_history(run: &Run, case: u64) {
     let mut rng = Rng::for_case(run.seed, case, 2);
     let block = *rng.pick(&[7usize, 64, 1000]);
@@ -148,35 +184,12 @@ fn one_history(run: &Run, case: u64) {
             }
             StepKind::Mutate => {}
         }
-        // every surviving completed version restores to its own snapshot
-        let complete = w.complete_bands();
-        max_complete = max_complete.max(complete.len());
-        for b in &complete {
-            let Some(expected) = w.sources.get(b) else {
-                run.inconclusive(format!("case {case}: complete band {b} unknown to the model"));
-                return;
-            };
-            restores += 1;
-            if let Err(m) = restore_and_compare(&w.arch, Some(*b), expected, &w.sc, &CmpOpts::default()) {
-                run.violation(
-                    format!("by-id:{}", m.class),
-                    format!("after step {step} ({}) version b{b:04}: {}", rep.desc, m.detail),
-                    replay.clone(),
-                );
-                return;
+        match check_versions(run, &w, &format!("after step {step} ({})", rep.desc), &replay) {
+            Some((n, complete)) => {
+                restores += n;
+                max_complete = max_complete.max(complete);
             }
-        }
-        if let Some(latest) = complete.iter().max() {
-            restores += 1;
-            if let Err(m) = restore_and_compare(&w.arch, None, &w.sources[latest], &w.sc, &CmpOpts::default()) {
-                let headless = !headless_bands(&w.raw(false)).is_empty();
-                run.violation(
-                    format!("latest-closed{}:{}", if headless { "-with-headless-band-dir" } else { "" }, m.class),
-                    format!("after step {step} ({}) latest complete is b{latest:04}: {}", rep.desc, m.detail),
-                    replay.clone(),
-                );
-                return;
-            }
+            None => return,
         }
     }
     run.count("restores_compared", restores);
@@ -187,12 +200,73 @@ fn one_history(run: &Run, case: u64) {
     run.sample(|| json!({"case": case, "history": descs}));
 }
 
+/// Scale: a history on a tree of 10 040 files with one entry per index hunk, so that the
+/// versions have hunks in two index subdirectories.
+fn many_hunks(run: &Run) {
+    let mut w = crate::history::many_hunks_world("c02big", run.seed);
+    let o = crate::history::MANY_HUNKS_OPTS;
+    let mut descs: Vec<String> = Vec::new();
+    run.eval();
+    for what in ["backup", "change+backup", "gc", "delete-oldest"] {
+        let rep = match what {
+            "backup" => w.backup(o),
+            "change+backup" => {
+                let mut spec = w.spec.clone();
+                for i in [3u32, 4_999, 9_999, 10_000, 10_039] {
+                    let mut n = crate::tree::Node::file(format!("changed {i}").into_bytes());
+                    n.mtime_s = 1_700_000_000 + i as i64;
+                    spec.insert(format!("/f{i:05}"), n);
+                }
+                spec.remove("/f00007");
+                spec.remove("/f10001");
+                spec.insert("/zlast".into(), crate::tree::Node::file(b"added after everything".to_vec()));
+                w.set_spec(spec);
+                w.backup(o)
+            }
+            "gc" => w.delete(&[], false),
+            _ => {
+                let oldest = *w.sources.keys().next().unwrap();
+                w.delete(&[oldest], false)
+            }
+        };
+        descs.push(format!("[10 040-file tree, 1 entry per hunk] {}", rep.desc));
+        let replay = json!({"many_hunks": true, "history": descs});
+        let ok = match rep.kind {
+            StepKind::Backup => judge_backup(run, &w, &rep, &replay),
+            _ => {
+                let ok = rep.delete.as_ref().map(|d| d.ok()).unwrap_or(false);
+                if !ok {
+                    run.violation("delete-err", format!("{}: {}", descs.last().unwrap(), rep.delete.as_ref().unwrap().describe()), replay.clone());
+                }
+                ok
+            }
+        };
+        if !ok {
+            return;
+        }
+        match check_versions(run, &w, &format!("after {}", descs.last().unwrap()), &replay) {
+            Some((n, _)) => {
+                run.count("restores_compared", n);
+                run.count("restores_of_versions_with_more_than_10000_hunks", n);
+            }
+            None => return,
+        }
+    }
+}
+
 pub fn run(tier: Tier, replay: Option<Value>) -> i32 {
-    let run = Run::new("C02", "exploration", tier, replay);
+    let run = Run::new("C02", "exploration", tier, replay.clone());
     let n = tier.pick(200, 8000);
-    run.par_cases(n, super::threads(), |case| one_history(&run, case));
+    if replay.as_ref().and_then(|r| r.get("many_hunks")).is_some() {
+        super::alongside(&run, "the many-hunks history", || many_hunks(&run), || ());
+        return run.finish("replay", &[], None, &[]);
+    } else if replay.is_some() {
+        run.par_cases(n, super::threads(), |case| one_history(&run, case));
+    } else {
+        super::alongside(&run, "the many-hunks history", || many_hunks(&run), || run.par_cases(n, super::threads(), |case| one_history(&run, case)));
+    }
     run.finish(
-        "random histories (6-25 steps) over {1-4 tree mutations (add/modify/touch/chmod/remove/rename/file<->dir/symlinks/resize across the small-file cap/content reappearing from removed files) with strictly increasing logical-clock mtimes; backup with random (hunk, block, cap); backup killed before a uniformly chosen storage operation of its measured trace; delete of a random subset (incl. dry run); gc}. After every step every version that has a tail and was not deleted is restored by id and via LatestClosed and compared with the snapshot of the source taken when its backup ran; refused and dry-run deletes must leave the archive byte-identical. Non-trivial = history reached >= 2 complete versions and >= 3 step kinds; distinct by step descriptions.",
+        "one history (backup, change, backup, gc, delete oldest) on a tree of 10 040 files with one entry per index hunk; then random histories (6-25 steps) over {1-4 tree mutations (add/modify/touch/chmod/remove/rename/file<->dir/symlinks/resize across the small-file cap/content reappearing from removed files) with strictly increasing logical-clock mtimes; backup with random (hunk, block, cap); backup killed before a uniformly chosen storage operation of its measured trace; delete of a random subset (incl. dry run); gc}. After every step every version that has a tail and was not deleted is restored by id and via LatestClosed and compared with the snapshot of the source taken when its backup ran; refused and dry-run deletes must leave the archive byte-identical. Non-trivial = history reached >= 2 complete versions and >= 3 step kinds; distinct by step descriptions.",
         &["logical clock guarantees changed files have a new mtime (precondition in the statement)", "stop-the-world crash simulated by refusing every storage operation from operation k on"],
         None,
         &[("restores_compared", 50), ("interrupted_backups", 2), ("deletes_done", 2), ("histories_completed", 4)],
